@@ -125,12 +125,14 @@ def cache_texts(data):
                 n = r[1]
                 lines.append("\t".join([name, str(p + 1), str(p + n), str(i + 1), "U", str(n), r[2], "yes", "proximity_ligation"]))
             p += n
-    return fai, "\n".join(lines) + "\n"
+    return fai, "".join(line + "\n" for line in lines)
 
 
 @functools.lru_cache(maxsize=64)
 def make_fasta(version, big=False):
     """deterministic content; different versions differ in names, lengths, offsets and gap positions"""
+    if big == "empty":
+        return make_fasta_empty(version)
     rng = random.Random(version * 7919 + (1 if big else 0))
     out = []
     n_seq = 420 if big else 2 + version % 2
@@ -149,6 +151,40 @@ def make_fasta(version, big=False):
         for p in range(0, len(seq), width):
             out.append(seq[p : p + width] + "\n")
     return "".join(out).encode()
+
+
+# (number of records, which of them have a header line but no residues), by version modulo 8
+EMPTY_PATTERNS = [(3, {1}), (3, {0}), (3, {2}), (4, {1, 2}), (2, {0, 1}), (1, {0}), (4, {0, 3}), (5, {0, 1, 4})]
+
+
+@functools.lru_cache(maxsize=64)
+def make_fasta_empty(version):
+    """
+    Contents in which some records consist of a header line only (legal FASTA: a .fai has a row of length 0 for such a
+    record, an AGP file has no line for it): first / middle / last record, two in a row, all records, the only record.
+    """
+    rng = random.Random(version * 6151 + 5)
+    n_seq, empty = EMPTY_PATTERNS[version % len(EMPTY_PATTERNS)]
+    width = 8 + version % 5
+    out = []
+    for i in range(n_seq):
+        out.append(f">e{i + 1}_{version}" + (" no residues\n" if i in empty and rng.random() < 0.5 else "\n"))
+        if i in empty:
+            continue
+        parts = []
+        for k in range(rng.randint(1, 3)):
+            if k or rng.random() < 0.3:
+                parts.append("N" * rng.randint(1, 9))
+            parts.append("".join(rng.choice("ACGTacgt") for _ in range(rng.randint(3, 30))))
+        seq = "".join(parts)
+        for p in range(0, len(seq), width):
+            out.append(seq[p : p + width] + "\n")
+    return "".join(out).encode()
+
+
+def size_words(big):
+    """the input of a scenario in words: big is False (small), True (cache files > 8 KiB) or "empty" (make_fasta_empty)"""
+    return "small (some records without residues)" if big == "empty" else "big" if big else "small"
 
 
 @functools.lru_cache(maxsize=64)
@@ -184,15 +220,21 @@ def make_fasta_ss(family, j):
 
 
 class Content:
-    """the FASTA content of a history: rewrites either change the size in bytes or keep it"""
+    """
+    the FASTA content of a history: rewrites either change the size in bytes or keep it.  gen: None (make_fasta), "ss"
+    (same-size families), "empty" (contents with records without residues, make_fasta_empty); v0: first version
+    """
 
-    def __init__(self, same_size_family):
-        self.ss = same_size_family
-        self.version = 0
+    def __init__(self, gen=None, v0=0):
+        self.ss = gen in (True, "ss")
+        self.empty = gen == "empty"
+        self.version = v0
         self.j = 0
 
     @property
     def data(self):
+        if self.empty:
+            return make_fasta_empty(self.version)
         return make_fasta_ss(self.version, self.j) if self.ss else make_fasta(self.version)
 
     def rewrite(self, same_size):
@@ -289,7 +331,7 @@ def cache_on_disk_claim(fa, data):
     """
     try:
         st = os.stat(fa)
-        if not all(os.stat(fa + ext).st_mtime > st.st_mtime for ext in (".fai", ".agp")):
+        if not all(os.stat(fa + ext).st_mtime_ns > st.st_mtime_ns for ext in (".fai", ".agp")):
             return None
         with open(fa + ".fai") as fh:
             fai_lines = fh.read().splitlines()
@@ -300,20 +342,41 @@ def cache_on_disk_claim(fa, data):
     index, asm = parse_fai_lines(fai_lines), parse_agp_lines(agp_lines)
     if index is None or asm is None:
         return None
-    return judge(("ok", index, asm), data)
+    return judge(("ok", index, asm), data, agp_file=True)
 
 
-def judge(obs, data):
-    """None if the observation is allowed, else a message"""
+def with_rows(asm):
+    """what an AGP file can say about an assembly: it has one line per row, so a record without residues has no line"""
+    return [sc for sc in asm if sc[1]]
+
+
+def judge(obs, data, agp_file=False):
+    """
+    None if the observation is allowed, else a message.  agp_file: obs[2] was read from an .agp file, so it is compared
+    with the scaffolds of the content that have rows (the others are in the .fai only).
+    """
     if obs[0] == "raised":
         return None
     index, asm = brute(data)
     if obs[1] != index:
         return f"index has {len(obs[1])} entries {obs[1][:2]}..., the FASTA content has {len(index)}: {index[:2]}..."
+    if agp_file:
+        asm = with_rows(asm)
     if obs[2] != asm:
         n_got = sum(len(r) for _, r in obs[2])
         n_want = sum(len(r) for _, r in asm)
-        return f"assembly has {len(obs[2])} scaffolds / {n_got} rows, the FASTA content has {len(asm)} scaffolds / {n_want} rows"
+        msg = f"assembly has {len(obs[2])} scaffolds / {n_got} rows, the FASTA content has {len(asm)} scaffolds / {n_want} rows"
+        got_names, want_names = [n for n, _ in obs[2]], [n for n, _ in asm]
+        if got_names != want_names:
+            no_residues = {row[0] for row in index if row[1] == 0}
+            missing = [n for n in want_names if n not in got_names]
+            if missing:
+                msg += f"; missing scaffolds {missing[:4]}" + (" (all of them records without residues: header line only)" if set(missing) <= no_residues else "")
+            elif sorted(got_names) == sorted(want_names):
+                msg += f"; scaffolds in the order {got_names[:6]}, in the FASTA they are in the order {want_names[:6]}"
+            else:
+                msg += f"; scaffolds {[n for n in got_names if n not in want_names][:4]} are not records of the FASTA (or are repeated)"
+        return msg
     return None
 
 
@@ -430,7 +493,7 @@ class FileOps:
         except OSError:
             return  # nothing there (any more): the rename itself is going to fail, loudly
         index, asm = brute(self.data)
-        want, what = (index, "index rows") if ext == ".fai" else (asm, "scaffolds")
+        want, what = (index, "index rows") if ext == ".fai" else (with_rows(asm), "scaffolds with rows")
         if got != want:
             self.violation(
                 f"the temporary file renamed to {os.path.basename(dst_s)} is not completely written at the moment of the rename: it holds "
@@ -560,10 +623,42 @@ LOAD_OPS = {
 }
 
 
+def ns_of(when):
+    """a time given in seconds (int or float) or, above 10**12, already in nanoseconds -> nanoseconds"""
+    return when if isinstance(when, int) and when > 10**12 else int(round(when * 10**9))
+
+
+def set_time(p, when):
+    """mtime (and atime) of a file, to the nanosecond"""
+    os.utime(p, ns=(ns_of(when), ns_of(when)))
+
+
 def set_link_time(p, when):
     """the timestamp of a symbolic link itself (when the link was made)"""
     if os.utime in os.supports_follow_symlinks:
-        os.utime(p, (when, when), follow_symlinks=False)
+        os.utime(p, ns=(ns_of(when), ns_of(when)), follow_symlinks=False)
+
+
+UNIT_NS = {"s": 10**9, "ms": 10**6, "us": 10**3, "ns": 1}
+
+
+def offset_words(ns, t0_ns):
+    """a time stamp relative to the start of the history, exactly: 'T0+0.6 s'"""
+    d = ns - t0_ns
+    sign, d = ("-", -d) if d < 0 else ("+", d)
+    frac = f"{d % 10**9:09d}".rstrip("0")
+    return f"T0{sign}{d // 10**9}" + (f".{frac}" if frac else "") + " s"
+
+
+def times_words(fa, t0_ns):
+    """the mtimes on which the validity of the cache is decided, in words"""
+    out = []
+    for ext in ("", ".fai", ".agp"):
+        try:
+            out.append(f"{ext or 'FASTA'} written at {offset_words(os.stat(fa + ext).st_mtime_ns, t0_ns)}")
+        except FileNotFoundError:
+            out.append(f"{ext} absent")
+    return ", ".join(out)
 
 
 HISTORY_LAYOUTS = ("plain", "link", "chain")
@@ -585,35 +680,43 @@ def place_fasta(d, layout, data, when):
             mid = os.path.join(d, "staged", "asm.fa")
             os.symlink(real, mid)
             os.symlink(mid, fa)
-            set_link_time(mid, when - 10)
+            set_link_time(mid, ns_of(when) - 10 * 10**9)
         else:
             os.symlink(real, fa)
-        set_link_time(fa, when - 10)
+        set_link_time(fa, ns_of(when) - 10 * 10**9)
     with open(real, "wb") as fh:
         fh.write(data)
-    os.utime(real, (when, when))
+    set_time(real, when)
     return fa, real
 
 
-def run_history(ops, col, inp, same_size_family=False, layout="plain"):
+def run_history(ops, col, inp, same_size_family=False, layout="plain", gen=None, v0=0, unit="s", start=0):
     """
     ops: [[op, tick], ...] with op in W (rewrite, other size), Ws (rewrite, same size in bytes; needs same_size_family),
     Dfai, Dagp, D (both), S (stage: cache files present become symbolic links to files in a store directory, the links
     made now) and the loads of LOAD_OPS.  All in this process.  layout: see place_fasta; rewrites go to the real file (link:
-    written in place; chain: replaced by a new file).  Returns number of loads judged.
+    written in place; chain: replaced by a new file).  gen, v0: see Content.  The logical clock starts at T0 + start and
+    advances by tick before each operation, both in `unit` (s, ms, us, ns): with a unit below the second the time stamps
+    have fractions of a second, as on any current file system.  Returns number of loads judged.
     """
     judged = 0
     how = "" if layout == "plain" else f" [FASTA path is a symbolic link ({layout}) to the real file, rewrites go to the target]"
+    if gen == "empty":
+        how += " [FASTA contents with records that have no residues]"
+    if unit != "s" or start:
+        how += f" [clock in {unit}, starting at T0+{start} {unit}; every file written by an operation gets exactly the time of that operation]"
+    unit_ns = UNIT_NS[unit]
+    t0_ns = T0 * 10**9
     with tempfile.TemporaryDirectory() as d:
-        content = Content(same_size_family)
+        content = Content("ss" if same_size_family else gen, v0)
         data = content.data
-        t = T0
+        t = t0_ns + start * unit_ns
         fa, real = place_fasta(d, layout, data, t)
         caches = [fa + ".fai", fa + ".agp"]
         n_staged = 0
         long_lived = FastaIndex(pathlib.Path(fa))
         for step, (op, tick) in enumerate(ops):
-            t += tick
+            t += tick * unit_ns
             if op in ("W", "Ws"):
                 size = len(data)
                 data = content.rewrite(same_size=op == "Ws")
@@ -625,7 +728,7 @@ def run_history(ops, col, inp, same_size_family=False, layout="plain"):
                 else:
                     with open(real, "wb") as fh:
                         fh.write(data)
-                os.utime(real, (t, t))
+                set_time(real, t)
             elif op in ("Dfai", "Dagp", "D"):
                 for p, o in zip(caches, ("Dfai", "Dagp")):
                     if op in (o, "D") and os.path.lexists(p):
@@ -642,15 +745,17 @@ def run_history(ops, col, inp, same_size_family=False, layout="plain"):
             else:
                 which, method, what = LOAD_OPS[op]
                 before = [file_sig(p) for p in caches]
-                fasta_mtime = os.stat(fa).st_mtime
-                need_rebuild = any(b is None or not (os.stat(p).st_mtime > fasta_mtime) for p, b in zip(caches, before))
+                fasta_mtime = os.stat(fa).st_mtime_ns
+                need_rebuild = any(b is None or not (os.stat(p).st_mtime_ns > fasta_mtime) for p, b in zip(caches, before))
+                when = times_words(fa, t0_ns)
                 obs = observe(fa, long_lived if which == "same" else None, method)
                 judged += 1
                 msg = judge(obs, data)
                 if msg:
                     col.fail(
                         f"history {ops[: step + 1]} in one process{how}: the {what} at step {step + 1} (FASTA content {content.version}.{content.j}, "
-                        f"{len(data)} bytes) silently yields something else than the current FASTA content: {msg}",
+                        f"{len(data)} bytes; {when}; load at {offset_words(t, t0_ns)}) silently yields something else than the current "
+                        f"FASTA content: {msg}",
                         inp,
                     )
                     return judged
@@ -659,12 +764,12 @@ def run_history(ops, col, inp, same_size_family=False, layout="plain"):
                     a = file_sig(p)
                     if a is not None and a != b:
                         written.append(p)
-                        os.utime(p, (t, t))
+                        set_time(p, t)
                         if os.path.islink(p):
                             set_link_time(p, t)
                 if obs[0] == "ok" and need_rebuild and len(written) != 2:
                     col.fail(
-                        f"history {ops[: step + 1]}{how}: a cache file was missing or not newer than the FASTA, but the {what} rewrote only "
+                        f"history {ops[: step + 1]}{how}: a cache file was missing or not strictly newer than the FASTA ({when}), but the {what} rewrote only "
                         f"{[os.path.basename(p) for p in written]} (both must be rebuilt together)",
                         inp,
                     )
@@ -714,6 +819,63 @@ def histories(max_len):
                 yield [list(s) for s in prefix] + [["L", tick]]
 
 
+# (h) time stamps with fractions of a second: the clock runs in ms (us, ns) and starts at a fraction
+FRACTION_TICKS = (0, 400, 700)
+
+
+def fraction_histories(max_len):
+    """histories as in (a) with ticks of 0 / 400 / 700 clock units (so that, in ms, consecutive operations fall into the
+    same clock second or not, the later one in its first or its second half)"""
+    symbols = [(op, tick) for op in ("W", "Dfai", "Dagp", "L") for tick in FRACTION_TICKS]
+    for n in range(1, max_len + 1):
+        for prefix in itertools.product(symbols, repeat=n - 1):
+            for tick in FRACTION_TICKS:
+                yield [list(x) for x in prefix] + [["L", tick]]
+
+
+def random_fraction_history(rng, length):
+    symbols = [(op, tick) for op in ("W", "W", "Dfai", "Dagp", "L", "L", "S") for tick in (0, 1, 300, 400, 700, 1000)]
+    return [list(rng.choice(symbols)) for _ in range(length - 1)] + [["L", rng.choice((0, 1, 300, 700))]]
+
+
+# quick tier: (unit, start, layout, ops).  First load at T0+start indexes (cache stamped with that time), the rewrite comes a
+# fraction of a second later, the last load must not be served from the older cache
+FRACTION_SAMPLES = [
+    ("ms", 200, "plain", [["L", 0], ["W", 400], ["L", 300]]),  # cache .2, FASTA .6 of the same second
+    ("ms", 200, "plain", [["L", 0], ["W", 200], ["L", 0]]),  # cache .2, FASTA .4
+    ("ms", 200, "plain", [["L", 0], ["W", 0], ["L", 0]]),  # same instant, with a fraction
+    ("ms", 500, "plain", [["L", 0], ["W", 300], ["L", 0], ["Dagp", 0], ["L", 100], ["L", 100]]),
+    ("ms", 900, "plain", [["L", 0], ["W", 300], ["L", 0], ["L", 1000]]),  # across a full second
+    ("ms", 999, "plain", [["L", 0], ["W", 1], ["L", 0]]),  # cache .999, FASTA on the full second
+    ("ms", 0, "plain", [["L", 0], ["W", 999], ["L", 0]]),  # cache on the full second, FASTA .999
+    ("us", 200, "plain", [["L", 0], ["W", 400], ["L", 300]]),
+    ("ns", 200, "plain", [["L", 0], ["W", 400], ["L", 300]]),
+    ("ms", 200, "chain", [["L", 0], ["S", 100], ["W", 300], ["L", 100]]),
+    ("ms", 100, "link", [["L", 0], ["W", 600], ["L", 0], ["W", 200], ["L", 0]]),
+]
+
+# (i) contents with records without residues
+EMPTY_SESSION_SYMBOLS = [("W", 1), ("D", 1), ("L", 1), ("Lo", 1), ("R", 1), ("Ro", 1)]
+
+
+def empty_session_histories(max_len):
+    last = [s for s in EMPTY_SESSION_SYMBOLS if s[0] in LOAD_OPS]
+    for n in range(1, max_len + 1):
+        for prefix in itertools.product(EMPTY_SESSION_SYMBOLS, repeat=n - 1):
+            for end in last:
+                yield [list(s) for s in prefix] + [list(end)]
+
+
+# quick tier: (first version, layout, ops); besides these, [load, load] is run from each of the 8 patterns of make_fasta_empty
+EMPTY_SAMPLES = [
+    (2, "plain", [["L", 1], ["W", 1], ["L", 1], ["L", 0], ["Lo", 1]]),
+    (3, "link", [["L", 1], ["Dagp", 1], ["L", 1], ["L", 1]]),
+    (0, "chain", [["L", 1], ["S", 1], ["L", 1], ["W", 1], ["L", 1], ["L", 1]]),
+    (4, "plain", [["R", 1], ["L", 1], ["Dfai", 1], ["L", 0], ["L", 1]]),
+    (6, "plain", [["L", 1], ["W", 0], ["L", 1], ["W", 1], ["L", 1], ["L", 1]]),
+]
+
+
 SESSION_SYMBOLS = [("Ws", 0), ("Ws", 1), ("W", 1), ("D", 1), ("L", 1), ("Lo", 1), ("R", 1), ("Ro", 1)]
 
 
@@ -735,9 +897,18 @@ def random_session_history(rng, length):
 # ------------------------------------------------------------------ scenarios for (b) and (c): real clock, FASTA in the past
 
 SCENARIOS = ("cold", "stale", "fai-missing", "agp-missing", "valid")
+# cache states in which the time stamps differ by fractions of a second only (used by (f); any experiment can replay them)
+CLOSE_SCENARIOS = ("stale-same-second", "stale-same-instant", "valid-same-second")
 
 
 SCENARIO_LAYOUTS = ("plain", "fasta-link", "cache-links", "all-links")
+
+
+CLOSE_WORDS = {
+    "stale-same-second": " (cache files of the previous content, written 0.4 s BEFORE the FASTA within the same clock second)",
+    "stale-same-instant": " (cache files of the previous content with exactly the FASTA's time stamp, which has a fraction of a second)",
+    "valid-same-second": " (cache files of the current content, written 0.3 s after the FASTA within the same clock second)",
+}
 
 
 def layout_words(layout):
@@ -753,11 +924,17 @@ def setup_scenario(d, scenario, big, layout="plain"):
     """
     returns (fasta path, current bytes).  Times: links to the FASTA made 3000 s ago, stale cache written 2000 s ago, FASTA
     written 1000 s ago, cache of the current content written 500 s ago, links to cache files made 100 s ago.
+    In the scenarios of CLOSE_SCENARIOS the FASTA is written 0.6 s after a full second S (about 1000 s ago) and the cache
+    files hold the previous content, written at S + 0.2 s (stale-same-second) or at the very same S + 0.6 s
+    (stale-same-instant), or the current content, written at S + 0.9 s (valid-same-second).
+    big: False / True (make_fasta) or "empty" (small contents with records without residues).
     """
     old, cur = make_fasta(3, big), make_fasta(4, big)
     now = time.time()
     fasta_layout = {"plain": "plain", "cache-links": "plain", "fasta-link": "link", "all-links": "chain"}[layout]
-    fa, _ = place_fasta(d, fasta_layout, cur, now - 1000)
+    second = (int(now) - 1000) * 10**9
+    fasta_time = second + 600_000_000 if scenario in CLOSE_SCENARIOS else now - 1000
+    fa, _ = place_fasta(d, fasta_layout, cur, fasta_time)
     if fasta_layout != "plain":
         for p in (fa, os.path.join(d, "staged", "asm.fa")):
             if os.path.islink(p):
@@ -768,6 +945,9 @@ def setup_scenario(d, scenario, big, layout="plain"):
     elif scenario in ("fai-missing", "agp-missing", "valid"):
         fai, agp = cache_texts(cur)
         when = now - 500
+    elif scenario in CLOSE_SCENARIOS:
+        fai, agp = cache_texts(cur if scenario == "valid-same-second" else old)
+        when = second + {"stale-same-second": 200_000_000, "stale-same-instant": 600_000_000, "valid-same-second": 900_000_000}[scenario]
     else:
         return fa, cur
     for ext, text, missing in ((".fai", fai, "fai-missing"), (".agp", agp, "agp-missing")):
@@ -781,7 +961,7 @@ def setup_scenario(d, scenario, big, layout="plain"):
             set_link_time(fa + ext, now - 100)
         with open(p, "w") as fh:
             fh.write(text)
-        os.utime(p, (when, when))
+        set_time(p, when)
     return fa, cur
 
 
@@ -850,7 +1030,7 @@ def count_events(scenario, big, text_events=False, layout="plain", tmp=None):
 
 def state_words(scenario, big, layout, tmp):
     return (
-        f"{'big' if big else 'small'} input, cache state '{scenario}'{layout_words(layout)}"
+        f"{size_words(big)} input, cache state '{scenario}'{CLOSE_WORDS.get(scenario, '')}{layout_words(layout)}"
         + (", TMPDIR pointing to a directory elsewhere" if tmp == "other" else "")
     )
 
@@ -982,7 +1162,7 @@ def exception_points(scenario, big, quick, layout="plain"):
     operation (quick: from the first open-for-writing on), and of the ~3300 text-handle writes the first and last three of
     each file plus an even spread (quick: ~6 per file, thorough: ~60 per file)."""
     total, labels = count_events(scenario, big, text_events=True, layout=layout)
-    if not big:
+    if big is not True:
         return total, labels, list(range(total + 1))
     ks = {total}
     text = [k for k, lab in enumerate(labels) if lab.startswith("text-write")]
@@ -1132,14 +1312,14 @@ def interleave_experiment(scenario, big, i, j, col, inp, more_readers=False):
                 t.join(timeout=60)
         for v in filter(first_report, ops.finish()):
             col.fail(
-                f"{'big' if big else 'small'} input, cache state '{scenario}', schedule A x{i} / B x{j if j is not None else 'all'} / A / B breaks the rule "
+                f"{size_words(big)} input, cache state '{scenario}', schedule A x{i} / B x{j if j is not None else 'all'} / A / B breaks the rule "
                 f"that a cache file only ever appears by an atomic rename of a complete file within the FASTA's directory: {v}",
                 inp,
             )
         for after, msg in mid:
             if msg:
                 col.fail(
-                    f"{'big' if big else 'small'} input, cache state '{scenario}', schedule {after} / C / ...: a third process C that "
+                    f"{size_words(big)} input, cache state '{scenario}', schedule {after} / C / ...: a third process C that "
                     f"auto-loads at this point, while the other run(s) are suspended, silently loads: {msg}",
                     inp,
                 )
@@ -1150,13 +1330,13 @@ def interleave_experiment(scenario, big, i, j, col, inp, more_readers=False):
             msg = judge(obs, cur)
             if msg:
                 col.fail(
-                    f"{'big' if big else 'small'} input, cache state '{scenario}', schedule A x{i} / B x{j if j is not None else 'all'} / A / B: "
+                    f"{size_words(big)} input, cache state '{scenario}', schedule A x{i} / B x{j if j is not None else 'all'} / A / B: "
                     f"process {who} silently loaded: {msg}",
                     inp,
                 )
         msg = judge(observe(fa), cur)
         if msg:
-            col.fail(f"{'big' if big else 'small'} input, cache state '{scenario}', after schedule A x{i} / B x{j}: a fresh auto-load shows: {msg}", inp)
+            col.fail(f"{size_words(big)} input, cache state '{scenario}', after schedule A x{i} / B x{j}: a fresh auto-load shows: {msg}", inp)
         return a_done, b_done
 
 
@@ -1172,7 +1352,10 @@ def replay(inp):
     try:
         layout = inp.get("layout", "plain")
         if inp["kind"] == "history":
-            run_history(inp["ops"], col, inp, same_size_family=inp.get("gen") == "ss", layout=layout)
+            run_history(
+                inp["ops"], col, inp, same_size_family=inp.get("gen") == "ss", layout=layout,
+                gen=inp.get("gen"), v0=inp.get("v0", 0), unit=inp.get("unit", "s"), start=inp.get("start", 0),
+            )
         elif inp["kind"] == "crash":
             labels = count_events(inp["scenario"], inp["big"], layout=layout, tmp=inp.get("tmp"))[1]
             crash_experiment(inp["scenario"], inp["big"], inp["k"], col, inp, labels, layout=layout, tmp=inp.get("tmp"))
@@ -1196,7 +1379,7 @@ def run(tier, seed, **opts):
     quick = tier == "quick"
     _VIEW_MEMO.clear()
     _RULE_REPORTED.clear()
-    parts = opts.get("parts", "abcdefg")  # run only some of the families (testing aid)
+    parts = opts.get("parts", "abcdefghi")  # run only some of the families (testing aid)
     max_len = 4 if quick else 5
     session_len = 3 if quick else 4
     link_len = 3 if quick else 4
@@ -1232,14 +1415,18 @@ def run(tier, seed, **opts):
     )
     prev = logging.root.manager.disable
     logging.disable(logging.CRITICAL)
-    n_hist = n_crash = n_sched = n_exc = n_sess = n_pub = n_link = 0
+    n_hist = n_crash = n_sched = n_exc = n_sess = n_pub = n_link = n_frac = n_empty = 0
     try:
         # (f)
         if "f" in parts:
-            for big, scenario, layout, tmp in itertools.product((False, True), SCENARIOS, SCENARIO_LAYOUTS, (None, "other")):
+            for big, scenario, layout, tmp in itertools.product((False, True, "empty"), SCENARIOS + CLOSE_SCENARIOS, SCENARIO_LAYOUTS, (None, "other")):
                 if col.full:
                     break
                 if quick and big and layout in ("fasta-link", "cache-links"):
+                    continue
+                if quick and (big == "empty" or scenario in CLOSE_SCENARIOS) and (big is True or tmp or layout not in ("plain", "all-links")):
+                    continue  # quick: records without residues / time stamps a fraction of a second apart on the small inputs only
+                if quick and big == "empty" and (layout != "plain" or scenario in CLOSE_SCENARIOS):
                     continue
                 methods = ("auto_load",) if quick and (big or layout != "plain") else ("auto_load", "run_indexing")
                 for method in methods:
@@ -1261,6 +1448,49 @@ def run(tier, seed, **opts):
                 col.evaluations += max(0, judged - 1)
                 col.case(("l", layout, repr(ops)), sample=inp if n_link == 130 else None)
                 n_link += 1
+        # (h)
+        if "h" in parts:
+            if quick:
+                gen = iter(FRACTION_SAMPLES)
+            else:
+                gen = itertools.chain(
+                    (("ms", 200, "plain", ops) for ops in fraction_histories(4)),
+                    ((unit, start, "plain", ops) for unit, start in (("ms", 0), ("ms", 600), ("ms", 999), ("us", 200), ("ns", 200)) for ops in fraction_histories(3)),
+                    (("ms", 200, layout, ops) for layout in ("link", "chain") for ops in fraction_histories(3)),
+                    (
+                        (rng.choice(("ms", "ms", "us", "ns")), rng.choice((0, 200, 500, 999)), rng.choice(HISTORY_LAYOUTS), random_fraction_history(rng, rng.randint(4, 8)))
+                        for _ in range(300)
+                    ),
+                )
+            for unit, start, layout, ops in gen:
+                if col.full:
+                    break
+                inp = {"kind": "history", "layout": layout, "unit": unit, "start": start, "ops": ops}
+                judged = run_history(ops, col, inp, layout=layout, unit=unit, start=start)
+                col.evaluations += max(0, judged - 1)
+                col.case(("t", unit, start, layout, repr(ops)), sample=inp if n_frac == 0 else None)
+                n_frac += 1
+        # (i)
+        if "i" in parts:
+            n_pat = len(EMPTY_PATTERNS)
+            if quick:
+                gen = itertools.chain(((v0, "plain", [["L", 1], ["L", 1]]) for v0 in range(n_pat)), EMPTY_SAMPLES)
+            else:
+                gen = itertools.chain(
+                    ((v0, "plain", ops) for v0 in range(n_pat) for ops in histories(3)),
+                    ((0, "plain", ops) for ops in histories(4)),
+                    ((v0, layout, ops) for v0 in (0, 3, 5) for layout in ("link", "chain") for ops in link_histories(3, layout)),
+                    ((v0, "plain", ops) for v0 in (0, 3, 4) for ops in empty_session_histories(3)),
+                    ((rng.randrange(n_pat), rng.choice(HISTORY_LAYOUTS), random_link_history(rng, rng.randint(4, 8))) for _ in range(200)),
+                )
+            for v0, layout, ops in gen:
+                if col.full:
+                    break
+                inp = {"kind": "history", "gen": "empty", "v0": v0, "layout": layout, "ops": ops}
+                judged = run_history(ops, col, inp, layout=layout, gen="empty", v0=v0)
+                col.evaluations += max(0, judged - 1)
+                col.case(("e", v0, layout, repr(ops)), sample=inp if n_empty == 3 else None)
+                n_empty += 1
         # (a)
         for ops in histories(max_len) if "a" in parts else ():
             if col.full:
@@ -1276,6 +1506,7 @@ def run(tier, seed, **opts):
                 link_states = [(False, sc, "all-links") for sc in ("stale", "fai-missing")]
             else:
                 link_states = [(False, sc, lay) for lay in SCENARIO_LAYOUTS[1:] for sc in SCENARIOS] + [(True, sc, "all-links") for sc in SCENARIOS]
+                link_states += [("empty", sc, "plain") for sc in SCENARIOS] + [(False, sc, "plain") for sc in CLOSE_SCENARIOS]
             for big, scenario, layout in [(big, sc, "plain") for big in (False, True) for sc in SCENARIOS] + link_states:
                 if col.full:
                     break
@@ -1301,15 +1532,15 @@ def run(tier, seed, **opts):
         if quick:
             link_states = [(False, sc, "all-links") for sc in ("stale", "agp-missing")]
         else:
-            link_states = [(False, sc, lay) for lay in SCENARIO_LAYOUTS[1:] for sc in SCENARIOS]
+            link_states = [(False, sc, lay) for lay in SCENARIO_LAYOUTS[1:] for sc in SCENARIOS] + [("empty", sc, "plain") for sc in SCENARIOS]
         for big, scenario, layout in ([(big, sc, "plain") for big in (False, True) for sc in SCENARIOS] + link_states) if "d" in parts else ():
             if col.full:
                 break
-            if big and quick and scenario not in ("stale", "fai-missing"):
+            if big is True and quick and scenario not in ("stale", "fai-missing"):
                 continue  # quick, big input: one state where the .agp and one where the .fai is the file whose validity is at stake
             total, labels, ks = exception_points(scenario, big, quick, layout)
             for n, k in enumerate(ks):
-                kinds = EXC_KINDS if not big else (EXC_KINDS[n % 3],) if quick else (EXC_KINDS[n % 3], EXC_KINDS[(n + 1) % 3])
+                kinds = EXC_KINDS if big is not True else (EXC_KINDS[n % 3],) if quick else (EXC_KINDS[n % 3], EXC_KINDS[(n + 1) % 3])
                 for kind in kinds:
                     inp = {"kind": "exception", "scenario": scenario, "big": big, "k": k, "exc": kind}
                     if layout != "plain":
@@ -1373,6 +1604,7 @@ def run(tier, seed, **opts):
         f"operation); {n_sched} two-process schedules with <= 2 preemptions; {n_exc} exception injections (cache states x small / big input x "
         f"file operations and text-handle writes x up to 3 exception kinds); {n_sess} one-process histories of length <= {session_len} "
         "with same-size rewrites and long-lived objects" + ("" if quick else " (300 of them random, length 5-9)")
-        + f"; {n_pub} complete runs under the publication rule; {n_link} histories with symbolic links (FASTA path and / or staged cache files)",
+        + f"; {n_pub} complete runs under the publication rule; {n_link} histories with symbolic links (FASTA path and / or staged cache files)"
+        f"; {n_frac} histories with time stamps that have fractions of a second; {n_empty} histories over FASTA contents with records without residues",
         exhaustive=True,
     )
